@@ -444,6 +444,9 @@ struct Core {
     mode: Mode,
     /// scheduler yields inside `work`: a busy leader, so that callers pile up behind it
     slow: u32,
+    /// outputs the iterator yields beyond one per input (a core is free to return a longer
+    /// iterator, e.g. `repeat(result)`; the queue must hand out one output per batched input)
+    surplus: usize,
     seen: Vec<u64>,
     batches: Vec<usize>,
 }
@@ -479,6 +482,9 @@ impl sync42::work_coalescing_queue::WorkCoalescingCore<u64, u64> for Core {
             self.seen.push(i);
             out.push(i * 3 + 1);
         }
+        for j in 0..self.surplus {
+            out.push(u64::MAX - j as u64);
+        }
         out.into_iter()
     }
 }
@@ -495,11 +501,15 @@ pub fn wcq(seed: u64, slot: &Slot) {
     let q = Arc::new(WorkCoalescingQueue::new(Core {
         mode,
         slow: *rng.pick(&[0u32, 0, 30, 200]),
+        surplus: 0,
         seen: Vec::new(),
         batches: Vec::new(),
     }));
     let n_t = rng.range(2, 6) as usize;
     let per = rng.range(1, 3);
+    // drawn from a stream of its own, so that the other draws stay what they were
+    let surplus = *Rng::new(crate::rng::mix(&[seed, 0x73757270])).pick(&[0usize, 0, 1, 3]);
+    q.get_core().surplus = surplus;
     let clock = Arc::new(AtomicU64::new(0));
     let stamps: Arc<StdMutex<Vec<(u64, u64, u64)>>> = Arc::new(StdMutex::new(Vec::new()));
     let events: Arc<StdMutex<Vec<u64>>> = Arc::new(StdMutex::new(Vec::new()));
@@ -576,7 +586,7 @@ pub fn wcq(seed: u64, slot: &Slot) {
         &events,
         coalesced || n_t > 1,
         vec![("queue_batches_of_more_than_one", batches.iter().filter(|b| **b > 1).count() as u64), ("queue_executions", 1)],
-        serde_json::json!({"mode": format!("{mode:?}"), "threads": n_t, "calls_per_thread": per, "batches": batches}),
+        serde_json::json!({"mode": format!("{mode:?}"), "threads": n_t, "calls_per_thread": per, "batches": batches, "surplus_outputs": surplus}),
     );
 }
 
